@@ -23,6 +23,22 @@ func init() {
 	generators["C18"] = genC18
 }
 
+// crlfOutsideQuotes turns LF into CR LF except inside single-quoted tokens.
+func crlfOutsideQuotes(b []byte) []byte {
+	var out []byte
+	inq := false
+	for _, x := range b {
+		if x == '\'' {
+			inq = !inq
+		}
+		if x == '\n' && !inq {
+			out = append(out, '\r')
+		}
+		out = append(out, x)
+	}
+	return out
+}
+
 func crlf(b []byte) []byte { return bytes.ReplaceAll(b, []byte("\n"), []byte("\r\n")) }
 
 // ---------------- C06 ----------------
@@ -79,7 +95,11 @@ func genC06(c *Ctx) {
 			}
 			// CRLF on well-formed input.
 			if kind == "wf" {
-				if got := itemsStr(f.decode(bytes.NewReader(crlf(data)), 0, limit)); got != base && oracle == "" {
+				cr := crlf(data)
+				if f.name == "newick" {
+					cr = crlfOutsideQuotes(data) // an LF inside a quoted name is content, not a terminator
+				}
+				if got := itemsStr(f.decode(bytes.NewReader(cr), 0, limit)); got != base && oracle == "" {
 					oracle = "CRLF line terminators change the result: " + trunc(got, 120)
 				}
 			}
